@@ -19,8 +19,8 @@ func init() {
 			"R12b blank-on-reuse: the reset function stores every field of Node on every path, links/data with zero values and ID with the result of the atomic counter function; " +
 			"R12c the ID counter variable is only ever the address operand of sync/atomic calls; " +
 			"R12d every nodePool.Put(x) is dominated by reset(x); pool New returns a reset node; pool Get only inside idr; no field of a node is read after the same value was released in that function; " +
-			"R12e typestate: every RemoveAndReleaseTree(e) whose operand is loaded from a holder field is followed on every path by an overwrite of that field before it is read again or the function returns; Release(n)-style methods clear each holder field (guarded by n == H or unconditionally) before releasing; " +
-			"R12f every AddChild(p, c): c is a node that was created in the same function (or produced by a node-building function) and is attached at most once per creation; " +
+			"R12e typestate: every RemoveAndReleaseTree(e) whose operand is loaded from a holder field is followed on every path by an overwrite of that field before it is read again or the function returns; Release(n)-style methods clear each holder field (guarded by n == H or unconditionally) before releasing, in the method itself or in a method of the same receiver it calls with the node bound on every path before the release; " +
+			"R12f every AddChild(p, c): c is a node that was created in the same function (or produced by a node-building function) and is attached at most once per creation; a parameter of an unexported helper that is only called statically is judged at every call site, and the call site counts as the attachment; " +
 			"R12g shape check of the link surgery: AddChild and RemoveAndReleaseTree are abstractly interpreted over all well-formed sibling lists of up to 4 children (every position), and the resulting abstract heap must satisfy the doubly-linked-list invariant.",
 		NotDecided: "cursor fields (cur/root) and stale stack-entry pointers after a release (O1/O2 in DESIGN.md) are argued, not checked; trees built by caller-supplied readers; lists longer than the bound of R12g (the surgery only touches n, its parent and its two neighbours, so the bound covers every aliasing case).",
 		Trusted:    append([]string{"sync.Pool and sync/atomic are synchronised as documented"}, commonTrusted...),
